@@ -49,10 +49,10 @@ def _names(count, variant):
     return out[:count]
 
 
-def _sym_fields(i, nme, cls):
+def _sym_fields(i, nme, cls, other_hi=True):
     mask = (1 << cls) - 1
     return dict(value=(0x401000 + 16 * i) & mask, size=(i * 3) & 0xffffffff, info=((1 if i % 3 else 2) << 4) | (i % 5 % 3 + (0 if i else 0)),
-                other=(0, 1, 2, 3, 0x60, 0xe3)[i % 6] if i else 0, shndx=(1 if i else 0))
+                other=((0, 1, 2, 3, 0x60, 0xe3) if other_hi else (0, 1, 2, 3, 0, 3))[i % 6] if i else 0, shndx=(1 if i else 0))
 
 
 def exp_symbol_entry(f, name_off, s):
@@ -157,7 +157,8 @@ def run_tables(ch):
     symoff = min(symoff, count)
     if hash_kind in ('both', 'gnu') and kind != 'ldynsym':
         names = hashes.gnu_order(names, symoff, g_nb)
-    syms = [_sym_fields(i, n, cls) for i, n in enumerate(names)]
+    other_hi = ch.pick('st_other.high_bits', [False, True])      # bits above the visibility (processor-specific meaning)
+    syms = [_sym_fields(i, n, cls, other_hi) for i, n in enumerate(names)]
     p = 1 if count > 1 else 0
     if count > 1:
         syms[p]['shndx'] = shndx_probe
